@@ -242,7 +242,7 @@ WRITERS = {
 
 def site_of(wname):
     w = WRITERS[wname]
-    return w[0] + wname.replace("/", ":") + "]"
+    return w[0] + (wname.replace("/", ":") if w[0].startswith("core.") and "tree" not in w[0] else wname.split("/", 1)[1]) + "]"
 
 
 def target_kind(fname):
